@@ -17,6 +17,18 @@ Theorem C04_order_independent :
 Proof. exact run_order_independent. Qed.
 Print Assumptions C04_order_independent.
 
+(* ... and independent of the order of the generators (GetRegisteredGenerators() ranges over the
+   registry map): same outcome, same files, and the same call sequence for every (package,
+   generator) — the log is the same set of per-generator sequences, interleaved differently. *)
+Theorem C04_generator_order_independent :
+  forall render parse_sum (o1 o2 : oracle) a e1 e2 w gens1 gens2 f,
+    shuffles o1 -> shuffles o2 -> wf_args a -> wf_world w -> Permutation e1 e2 ->
+    Permutation gens1 gens2 -> NoDup (map g_name gens1) ->
+    out_equiv_log (run true true render parse_sum o1 a e1 w gens1 f)
+                  (run true true render parse_sum o2 a e2 w gens2 f).
+Proof. exact generator_order_independent. Qed.
+Print Assumptions C04_generator_order_independent.
+
 (* gengo.sum is a function of the map, not of its iteration order: one line per entry, ascending. *)
 Theorem C04_sum_bytes_sorted :
   forall (o : oracle) m, shuffles o -> NoDup (map fst m) ->
